@@ -852,8 +852,19 @@ async fn build_authoritative_response(
 
     #[cfg_attr(not(feature = "__dnssec"), allow(unused_variables))]
     let (ns, soa) = if let Some(answers) = &answers {
-        // SOA queries should return the NS records as well, a referral only has the cut's NS.
-        if query.query_type().is_soa() && !is_referral {
+        #[cfg(feature = "__dnssec")]
+        let has_wildcard_match = answers.iter().any(|rr| match &rr.data {
+            RData::DNSSEC(DNSSECRData::RRSIG(rrsig)) => {
+                rrsig.input().num_labels < rr.name.num_labels()
+            }
+            _ => false,
+        });
+        #[cfg(not(feature = "__dnssec"))]
+        let has_wildcard_match = false;
+
+        // SOA queries should return the NS records as well, a referral only has the cut's NS and
+        // a wildcard match needs the proof that there is no closer match instead.
+        if query.query_type().is_soa() && !is_referral && !has_wildcard_match {
             // This was a successful authoritative lookup for SOA:
             //   get the NS records as well.
 
@@ -872,13 +883,6 @@ async fn build_authoritative_response(
         } else {
             #[cfg(feature = "__dnssec")]
             {
-                let has_wildcard_match = answers.iter().any(|rr| match &rr.data {
-                    RData::DNSSEC(DNSSECRData::RRSIG(rrsig)) => {
-                        rrsig.input().num_labels < rr.name.num_labels()
-                    }
-                    _ => false,
-                });
-
                 let res = match handler.nx_proof_kind() {
                     Some(NxProofKind::Nsec3 {
                         algorithm,
